@@ -2060,6 +2060,22 @@ class Exec:
                 return R(_copy.copy(v))
         if re.search(r'(^|::)read::<GenericArray<', c):
             raise NotImplementedError('block read ' + c)
+        if re.search(r'(^|::)copy(_nonoverlapping)?::<T>$', c) and len(args) == 3 and isinstance(args[1], ElemPtr) and z3.is_expr(args[2]) and z3.is_true(z3.simplify(args[2] == bv(1))):
+            # one element copied bit by bit into a slot: from a local that holds the value (a move: the local is in ManuallyDrop / forgotten by
+            # the caller, otherwise the ledger sees the second drop), or from another slot
+            src = args[0]
+            if isinstance(src, Ref):
+                v = st.get(src.cell, src.path)
+                while isinstance(v, dict) and set(v.keys()) == {0}:
+                    v = v[0]
+                if isinstance(v, Elem):
+                    s.ev_write(st, args[1].arr, args[1].idx, v, where)
+                    return R(UNIT)
+            if isinstance(src, ElemPtr):
+                s.ev_move_out(st, src.arr, src.idx, where)
+                s.ev_write(st, args[1].arr, args[1].idx, Elem(src.arr, src.idx), where)
+                return R(UNIT)
+            raise NotImplementedError('copy_nonoverlapping of one element from ' + type(src).__name__)
         if re.match(r'^MaybeUninit::<T>::assume_init_drop$', c) and isinstance(args[0], ElemPtr):
             return s.drop_slice(st, Slice(args[0].arr, args[0].idx, args[0].idx + 1), where)
         if re.search(r'(^|::)write::<[A-Z]\w*>$', c) and isinstance(args[0], ElemPtr):      # ptr::write of one element (T, or the mapped type through a cast slot pointer)
